@@ -159,6 +159,29 @@ def gen_prog_case(rng):
     return {"kind": "exec", "text": text, "pokes": pokes, "acc": rng.choice([0, 0, 1, 0xFFFF, 0x8000, rng.getrandbits(16)]), "max_steps": 120, "w0": words[0], "L": L}
 
 
+def gen_restore_case(rng):
+    """save / patch / restore: LDA a; change the accumulator; STO a; change it back WITHOUT another LDA; STO a again
+    (a data cell or an instruction word that executes afterwards) - every STO writes, whatever was loaded before"""
+    OP = {m: i << 12 for i, m in enumerate(MNEMONICS)}
+    pre = [rng.choice([OP["INC"], OP["DEC"], OP["NOT"], OP["NOP"]]) for _ in range(rng.randint(0, 2))]
+    pair = rng.choice([("INC", "DEC"), ("DEC", "INC"), ("NOT", "NOT"), ("INC", "DEC")])
+    n_mid = rng.randint(1, 3)
+    body_len = len(pre) + 1 + n_mid + 1 + n_mid + 1
+    tail = [rng.choice([OP["INC"], OP["NOP"], OP["DEC"]]) for _ in range(rng.randint(1, 4))]
+    L = body_len + len(tail)
+    in_prog = rng.random() < 0.5
+    a = body_len + rng.randrange(len(tail)) if in_prog else L + 1 + rng.randrange(3)  # a later instruction word / a data cell
+    words = pre + [OP["LDA"] | a] + [OP[pair[0]]] * n_mid + [OP["STO"] | a] + [OP[pair[1]]] * n_mid + [OP["STO"] | a] + tail
+    if rng.random() < 0.5:
+        words.append(OP["ADD"] | a)
+        L += 1
+    text = "\n".join([word_text(words[0])] + ["NOP"] * (L - 1))
+    pokes = {str(i): w for i, w in enumerate(words) if i}
+    for c in range(L + 1, L + 4):
+        pokes[str(c)] = rng.choice([0, 1, 0xFFFF, rng.getrandbits(16)])
+    return {"kind": "exec", "text": text, "pokes": pokes, "acc": rng.getrandbits(16), "max_steps": 60, "w0": words[0], "L": L}
+
+
 def _filler(rng, cells):
     """non-control word that does not store into the program: address-type ops on data cells, or accumulator ops"""
     op = rng.choice([1, 3, 4, 5, 6, 7, 8, 9, 10, 11, 12, 13, 14, 15])
@@ -610,7 +633,10 @@ def run_shard(spec, res):
         res.count("other_sized_simulation_in_process")
         for it in range(spec["n"]):
             case = gen_selfmod_case(rng) if rng.random() < 0.3 else gen_prog_case(rng)
-            if rng.random() < 0.25:
+            if rng.random() < 0.12:
+                case = gen_restore_case(rng)
+                res.count("save_patch_restore_programs")
+            elif rng.random() < 0.25:
                 # whole sources (stand-alone / in-line labels, comments, data before or after the text) executed:
                 # "execution stops exactly when the program counter passes the last assembled instruction"
                 src = gen_source(rng)
